@@ -47,12 +47,29 @@ THRICE = C.Kind("same-broadcast-three-times", impl=_impl_thrice, model=lambda a:
                 judge=lambda a, o: [(f"c05exp {a['family']} {a['fields']}", o)],
                 classify=lambda a, o: "x3:" + a["fields"].split()[0], nontrivial=lambda a, o: (a["fields"].split()[0], o[:60]))
 
+def _impl_group(a):
+    """several broadcasts of ONE device (same id; other fields, another moment of the device's clock) through one running bridge"""
+    n = len(a["items"])
+    out = BH.run_bridge_sequence(1, [(0, x["dgram"]) for x in a["items"]])      # one after the other, in this order
+    got = [] if out == "-" else out.split(" | ")
+    if len(got) != n:
+        return f"{len(got)}-deliveries-for-{n}-broadcasts-of-one-device"
+    return " | ".join("device " + g[2:] for g in got)
+
+
+GROUP = C.Kind("one-device-heard-several-times", impl=_impl_group, model=lambda a: ["dgram " + x["dgram"] for x in a["items"]],
+               assemble=lambda a, outs: " | ".join(outs),
+               judge=lambda a, o: ([(f"c05exp {x['family']} {x['fields']}", part) for x, part in zip(a["items"], o.split(" | "))]
+                                   if o.count(" | ") == len(a["items"]) - 1 and o.startswith("device") else [("c06gate -", o)]),
+               classify=lambda a, o: f"group{len(a['items'])}:" + o.split()[0][:12], nontrivial=lambda a, o: (len(a["items"]), o[:60]),
+               shrink=lambda a: [dict(a, items=a["items"][:i] + a["items"][i + 1:]) for i in range(len(a["items"])) if len(a["items"]) > 1])
+
 RAW = C.Kind("shipped-capture", impl=lambda a: BH.parse_direct(a["dgram"]), model=lambda a: "dgram " + a["dgram"],
              classify=lambda a, o: "capture:" + o.split()[0], nontrivial=lambda a, o: a["name"])
 ENC_BUF = C.Kind("encoded-broadcast-in-a-reused-buffer", impl=lambda a: BH.parse_direct(a["dgram"], "buffer"), model=lambda a: "dgram " + a["dgram"],
                  judge=lambda a, o: [(f"c05exp {a['family']} {a['fields']}", o)],
                  classify=lambda a, o: "buf:" + a["fields"].split()[0], nontrivial=lambda a, o: (a["fields"].split()[0], o[:90]))
-KINDS = {"same-broadcast-three-times": THRICE, "encoded-broadcast-in-a-reused-buffer": ENC_BUF, "encoded-broadcast": ENC, "via-running-bridge": VIA, "shipped-capture": RAW}
+KINDS = {"one-device-heard-several-times": GROUP, "same-broadcast-three-times": THRICE, "encoded-broadcast-in-a-reused-buffer": ENC_BUF, "encoded-broadcast": ENC, "via-running-bridge": VIA, "shipped-capture": RAW}
 
 
 def captures():
@@ -113,6 +130,21 @@ def streams(ctx):
     again = B.encode_all(again)
     ctx.run_cases(ENC, "same-device-id-heard-again-with-other-fields", again, exhaustive=False, sample_every=len(again) // 2)
     ctx.run_cases(VIA, "same-device-id-again-through-a-running-bridge", again[:ctx.n(40, 300)], exhaustive=False, sample_every=20)
+    # ONE device heard 2..5 times by ONE running bridge: its fields change, and the clock it stamps into the header (bytes 24..27) runs
+    # on, stands still or jumps BACK (a reboot, a time sync) - every broadcast is decoded and delivered on its own
+    groups = []
+    for _ in range(ctx.n(25, 400)):
+        fam = rng.choice(["t1", "shutter", "thermo"])
+        did = rng.randbytes(3).hex()
+        items = B.encode_all([B.gen_device(rng, fam, dev_id=did) for _ in range(rng.randrange(2, 6))])
+        clock = rng.randrange(1_600_000_000, 1_900_000_000)
+        for x in items:
+            d = bytearray.fromhex(x["dgram"])
+            d[24:28] = clock.to_bytes(4, "little")
+            x["dgram"] = d.hex()
+            clock = max(0, min(2 ** 32 - 1, clock + rng.choice([0, 1, 4, 60, -1, -4, -3600, -clock + 5])))
+        groups.append({"items": items})
+    ctx.run_cases(GROUP, "one-device-heard-several-times-by-one-bridge-its-clock-running-on-or-jumping-back", groups, exhaustive=False, sample_every=9)
 
 
 def search(ctx, broken):
